@@ -59,6 +59,11 @@ void *realloc(void *ptr, size_t len)
     if (len % __WORDSIZE != 0)
         len += (__WORDSIZE - (len % __WORDSIZE));
 
+    /* Like malloc(): a chunk must be able to hold a freelist entry once it
+     * is released again. */
+    if (len < sizeof(struct __freelist) - sizeof(size_t))
+        len = sizeof(struct __freelist) - sizeof(size_t);
+
     struct __freelist *fp1, *fp2, *fp3, *ofp3;
     char *cp, *cp1;
     void *memp;
